@@ -29,6 +29,15 @@ def format_tail_trees():
     fmts = ['(# %s)' % a for a in els] + ['(# %s %s)' % (a, b) for a in els for b in els]
     for f in fmts:
         trees.append('(A (PrintFormatted %s))' % f)
+    clear = '(Spc Clear)'
+    few = ['(Fld Name)', '(Spc Newline)', '(Lit %s)' % sx_str('x'), clear]
+    for a in few:
+        for b in few:
+            for c in few:
+                for d in [None] + few:
+                    f = '(# %s)' % ' '.join(x for x in [a, b, c, d] if x)
+                    if clear in f:
+                        trees.append('(A (PrintFormatted %s))' % f)
     for f in fmts[::3]:
         trees.append('(And (A Print) (A (PrintFormatted %s)))' % f)
         trees.append('(List (A (PrintFormatted %s)) (A (FilePrint %s)))' % (f, sx_str('o')))
@@ -246,7 +255,8 @@ def twins(s):
     cand = [s, './' + s, './/' + s, s + '/', '/' + s, s.upper(), s.lower(), s.swapcase(), ' ' + s, s + ' ', s + '\\',
             ''.join('\\' + c if c in '*?[' else c for c in s), ''.join('\\' + c for c in s), s.replace('*', '?'),
             unicodedata.normalize('NFD', s), s + '\u0301', s + s, s[:-1] if len(s) > 1 else s + 'x',
-            s.replace('/', '//'), s.replace('/', '/./'), s + '/.', 'd/../' + s, s.replace('.', '%2e')]
+            s.replace('/', '//'), s.replace('/', '/./'), s + '/.', 'd/../' + s, s.replace('.', '%2e'),
+            s.replace('*', '**'), s.replace('*', '\\**'), s.replace('*', '\\*'), s.replace('?', '??'), s + '*', s + '**', '*' + s]
     out = []
     for c in cand:
         if c != s and c not in out:
@@ -326,7 +336,7 @@ def special_name_texts():
 
 def adjacent_format_trees():
     """Two (three) formatted prints next to each other under every operator, with every combination of endings."""
-    ends = ENDINGS[:8] + ['(Lit %s)' % sx_str(' '), '(Fld Size)']
+    ends = ENDINGS[:8] + ['(Lit %s)' % sx_str(' '), '(Fld UserId)']
     trees = []
     for e1 in ends:
         for e2 in ends:
@@ -487,6 +497,14 @@ def gen_actions(tier, rnd):
             tree = '(And %s %s)' % (tree, l)
         lines.append(T(tree))
     lines += [T(t) for t in format_tail_trees()[::2]]
+    # RIGHT-nested operator chains (33..300 levels) ending in a plain action / no action / a file action
+    for n in [31, 32, 33, 34, 40, 63, 64, 65, 128, 300]:
+        for last in ['(A Print)', '(A (PrintFormatted (# (Fld Name) (Spc Newline))))', '(T (Name %s))' % sx_str('x'), '(A (FilePrint %s))' % sx_str('o'), '(A PrintNull)']:
+            for op in ['And', 'Or', 'List']:
+                t = last
+                for _ in range(n):
+                    t = '(%s (T True) %s)' % (op, t)
+                lines.append(T(t))
     # destinations whose names differ only up to a plausible normalisation: two table entries, two tags
     lines += [T(t) for t in twin_trees() + key_twin_trees() if 'FilePrint' in t]
     lines += [T(t) for t in special_name_trees() + adjacent_format_trees()]
@@ -626,6 +644,15 @@ def gen_trees(tier, rnd):
             for sep in ['/', '', ' ', '//', ':']:
                 mid = '(Lit %s) ' % sx_str(sep) if sep else ''
                 add('(A (PrintFormatted (# (Fld %s) %s(Fld %s) (Spc Newline))))' % (f1, mid, f2), 'field_pairs')
+    tf = lambda kind, ch: '(Fld (%sFormatted c%d))' % (kind, ord(ch))
+    for chars, sep in [('Ymd', '-'), ('HMS', ':'), ('HM', ':'), ('Ymd', '.'), ('dmY', '/')]:
+        for kinds in [('Modify', 'Access', 'Modify'), ('Change', 'Modify', 'Access'), ('Access', 'Access', 'Change'), ('Modify', 'Modify', 'Modify')]:
+            els = []
+            for k, ch in zip(kinds, chars):
+                if els: els.append('(Lit %s)' % sx_str(sep))
+                els.append(tf(k, ch))
+            add('(A (PrintFormatted (# (Fld Name) (Lit %s) %s (Spc Newline))))' % (sx_str(' '), ' '.join(els)), 'time_runs')
+            add('(A (FilePrintFormatted %s (# %s (Spc Newline))))' % (sx_str('o'), ' '.join(els)), 'time_runs')
     others = ['User', 'UserId', 'Group', 'GroupId', 'DiskSizeBytes', 'DiskSizeBlocks', 'InodeDecimal', 'Hardlinks', 'PermissionsOctal', 'Type', 'FileId']
     for f1 in others + pathish:
         for f2 in others[:5] + pathish[:2]:
